@@ -33,7 +33,7 @@ CLAIMS = {
  "C05": ("proof", "Theorems: the batch loop outputs header ++ rows in record order for EVERY memory limit; the mapped writer's schedule model puts row n into slot n for EVERY worker count and EVERY complete interleaving of TAKE/WRITE/EXIT steps; both writers agree; a header adds exactly one line. Tied to the code by the byte-identity matrix (threads x limits x writers x containers x delimiters), by controlled-scheduler replay through the cfg(kmertools_verif) hooks whose logged trace, write offsets and bytes must equal the model's, and by run-twice agreement on the implementation.",
          "7 C05", "atomicity of the reader mutex and of one write_at per row, and order preservation of rayon collect, are assumed; interleavings below hook granularity are runtime behaviour the model cannot exhibit (partial).",
          "Coq proof (invariant over all schedules; induction over the batch loop) + schedule replay and trace validation against the hooked implementation"),
- "C07": ("proof", "Theorems: the rendered counts table of the partition/merge model equals the spec table for every n_parts >= 1 and every chunking; chunked counting under any schedule of CHECK/TAKE/INC/ADD/EXIT steps, any worker count and any limit counts every k-mer exactly as often as it occurs over all chunk passes; partition + per-partition merge yields exactly one line per distinct k-mer carrying the total, for every n_parts >= 1 and every chunking. Controlled-scheduler replay of count() through the hooks with trace validation (CHECK/TAKE/INC/ADD/EXIT, several chunk passes). Correspondence: kmers.counts (numeric and ACGT) and surviving temp files for ceilings giving 1..dozens of chunks/partitions, threads default/1..16, repetitive inputs.",
+ "C07": ("proof", "Theorems: the rendered counts table of the partition/merge model equals the spec table for every n_parts >= 1 and every chunking; chunked counting under any schedule of CHECK/TAKE/INC/ADD/EXIT steps, any worker count and any limit counts every k-mer exactly as often as it occurs over all chunk passes; partition + per-partition merge yields exactly one line per distinct k-mer carrying the total, for every n_parts >= 1 and every chunking; at file level (Model/CtrFs.v, run against the real directory by the `ctrfs` cases) the table parsed back from kmers.counts is the spec table whatever the directory held before. Controlled-scheduler replay of count() through the hooks with trace validation (CHECK/TAKE/INC/ADD/EXIT, several chunk passes). Correspondence: kmers.counts (numeric and ACGT) and surviving temp files for ceilings giving 1..dozens of chunks/partitions, threads default/1..16, repetitive inputs.",
          "7 C07", "atomicity of scc entry and AtomicU64 assumed; a non-atomic get-then-insert shows only in free-running stress (partial); counts < 2^32.",
          "Coq proof (conservation invariant over all schedules; merge algebra) + differential correspondence on the merged table"),
  "C08": ("proof", "Theorems for every k in 1..=31, bin count >= 1, any table: the row has bin-count entries, entry b counts the valid windows whose canonical k-mer has multiplicity c with min(c / bin-size, bin-count - 1) = b (absent k-mers: bin 0), every window in exactly one bin; the normalised entry is printed correct to 6 decimals (same theorem as C04: |n/10^6 - count/max(1,total)| <= 0.5e-6 + 2^-53); the vectors file of the model is one specified row per record in input order for every flush limit; the batch loop writes one row per record in order for every limit (after the D5 fix). Correspondence at record level (boundary multiplicities) and file level (alt input, flush per record / never, threads, trailing empty records).",
@@ -63,7 +63,7 @@ CLAIMS = {
  "C16": ("proof", "Theorems for ALL record lists: one LF-terminated row per record for oligo and coverage, coverage writer drops no record for any limit (D5), one s2m line per record, whole-read window never below m (D6), CGR gives one row per record or refuses exactly when a record holds a non-nucleotide byte, empty input gives empty output (D4); termination by structural recursion. Correspondence: degenerate matrix on binary and library, debug and release, with explicit row-count / NUL / placeholder scans.",
          "7 C16", "runtime aborts and hangs not caused by the modelled logic are outside the model: partial.",
          "Coq proof (structure of the total pipeline models) + degenerate-input correspondence incl. debug/release agreement"),
- "C17": ("proof", "Theorems on a file-system model (create/truncate replaces content; a run touches only its own temp files): the result files after any history of runs equal those of the last run in a fresh location. Correspondence: histories of 2-3 runs of the binary sharing a location, with stale chunk files, a stale counts table and a longer stale vectors file planted, against the model of the last run alone.",
+ "C17": ("proof", "Theorems on a file-system model (create/truncate replaces content; a run touches only its own temp files): the result files after any history of runs equal those of the last run in a fresh location. For the counter the model is concrete (Model/CtrFs.v: temp_kmers.part_P_chunk_C names, their text, read-back, summation, removal, kmers.counts): for every partition count, every list of chunk passes and every previous content of the directory the run does not fail, kmers.counts gets the merged table of this run alone, its own temp files are gone and every other path is untouched (names proved injective, text proved to parse back); this model is run against the real directory content (`ctrfs` cases: listing after count() and after merge, empty or stale directory). Correspondence: histories of 2-3 runs of the binary sharing a location, with stale chunk files, a stale counts table and a longer stale vectors file planted, against the model of the last run alone.",
          "7 C17", "OS file semantics (truncate, set_len, unlink, mmap) are assumed, not modelled.",
          "Coq proof (file-system model, induction over the history) + history replay on the binary"),
 }
